@@ -148,6 +148,10 @@ def rules(ctx, db):
             ev = [bb for bb, _ in calls(f, r"poll::FdQueue::event$")]
             ctx.ob("R2", "poll-remove-then-rearm", bool(r1) and bool(r2) and bool(ev) and f.cfg.dominates(r1[0], ev[0]) and f.cfg.dominates(ev[0], r2[0]),
                    "after removing the key the descriptor is re-armed for the operations that remain", f)
+            ctx.ob("R2", "poll-remove-always-renews", bool(r1) and bool(r2) and all(any(f.cfg.postdominates(b, a) for b in r2) for a in r1),
+                   "every path from the removal of the key to a return passes renew(): the poller registration is modified for "
+                   "the remaining operations or deleted when none remains (a descriptor the driver forgot but the poller still "
+                   "watches makes the next operation on it fail with EEXIST)", f)
         pcn = [f for f in db.fns.values() if f.name == "compio_driver::sys::driver::poll::Driver::cancel"]
         if not pcn:
             ctx.missing("R2", "poll::Driver::cancel")
